@@ -74,6 +74,8 @@ PROGRAMS = [
     "(a): int = 1\n(b.c): d\n(\n e\n): f = 2\ng: h",
     # 55: nodes without a position of their own (match_case) at the end of a block that is not the last statement of its parent
     "def f(cmd):\n    match cmd:\n        case 1:\n            a\n        case 2:\n            b\n    return cmd",
+    # 56: arguments / bases and keywords over several lines with falling columns (source order is (line, column) order)
+    "r = call(a, key=1,\n    *rest)\nclass C(B, m=M,\n  *bases): pass",
 ]
 
 for _p in PROGRAMS:
